@@ -59,9 +59,9 @@ WhyObs(c, e) ==
     ELSE IF ~ObsTokens(c, e) THEN "DRIFT-Tokens"
     ELSE ""
 \* "time proportional to the input": over a fourfold growth of the input the time per byte may grow at most
-\* threefold (linear 1x, n log n ~1.2x, quadratic 4x); runs under FloorMs are too short to be measured
+\* 2.5-fold (linear 1x, n log n ~1.2x, quadratic 4x); runs under FloorMs are too short to be measured
 FloorMs == 800
-ObsTimeProportional(e) == e.ms2 <= FloorMs \/ e.ms2 * 10 <= 3 * (IF e.ms1 < 10 THEN 10 ELSE e.ms1) * ((e.n2 * 10) \div e.n1)   \* (32-bit integers)
+ObsTimeProportional(e) == e.ms2 <= FloorMs \/ e.ms2 * 20 <= 5 * (IF e.ms1 < 10 THEN 10 ELSE e.ms1) * ((e.n2 * 10) \div e.n1)   \* 2.5x (32-bit integers)
 \* a run that did not come back: watchdog = Terminates; escaped C++ exception = NoThrow; signal, sanitizer abort = NoCrash
 WhyCrash(e) == IF e.wk = "timeout" THEN "Terminates" ELSE IF e.wk = "exception" THEN "NoThrow" ELSE "NoCrash"
 
